@@ -242,7 +242,7 @@ def driver_modes(ctx):
     # forward mode: result [1] is the tangent (the observable); it is the value screened for nan / inf
     e_j, t_j = jv[0]
     screened = [strip_wrappers(call_parts(x)[1][0]) for x in all_terms_of(ev) if x.op == "call" and
-                (func_name(x) or "").split(".")[-1] in ("isnan", "isinf") and call_parts(x)[1]]
+                (func_name(x) or "").split(".")[-1] in ("isnan", "isinf", "isfinite") and call_parts(x)[1]]
     fw = [x for x in screened if x.op == "getitem" and x.args[0] is t_j and x.args[1].op == "const"]
     ok_role = bool(fw) and {x.args[1].args[0] for x in fw} == {1}
     ctx.ob("BIND-2", "driver.afqmc (forward): the tangent output (index 1) is the value used and screened as the observable",
